@@ -68,11 +68,7 @@ pub open spec fn carried(s0: LLLData, s1: LLLData) -> bool {
     s1.det@.len() == s0.det@.len() && s1.p.is_some() == s0.p.is_some() && s1.pinv.is_some() == s0.pinv.is_some()
     && forall|a0: int| p_ok(s0, a0) ==> p_ok(s1, a0)
 }
-/// the returned triple satisfies the property's clause  H = P.A0,  P.P^-1 = I = P^-1.P
-pub open spec fn t_ok(t: Mat, p: Option<Mat>, pinv: Option<Mat>, a0: int) -> bool {
-    (p.is_some() ==> t.m@ == mmul(opt(p), a0))
-    && (p.is_some() && pinv.is_some() ==> mmul(opt(p), opt(pinv)) == mid() && mmul(opt(pinv), opt(p)) == mid())
-}
+//@include units/lll_flow/tok.inc
 pub proof fn lemma_t_swap(t: Mat, p: Option<Mat>, pinv: Option<Mat>, t1: Mat, p1: Option<Mat>, pinv1: Option<Mat>, e: int, a0: int)
     requires t_ok(t, p, pinv, a0), mmul(e, e) == mid(), t1.m@ == mmul(e, t.m@), p.is_some() == p1.is_some(), pinv.is_some() == pinv1.is_some(),
         p.is_some() ==> opt(p1) == mmul(e, opt(p)), pinv.is_some() ==> opt(pinv1) == mmul(opt(pinv), e),
